@@ -79,6 +79,7 @@ HEAP_PROGS = [
     ("binary pinned against itself", "#{ a = [0xaa, 0xbb] __binary_concat__, x = a =&a, [x, a] }", "[Ok, 0xaabb]"),
     ("tuple holding a binary pinned against itself, then dropped", "#{ t = P[[0xaa, 0xbb] __binary_concat__], t =&t, 1 }", "1"),
     ("type test on a heap binary, then dropped", "#{ a = [0xaa, 0xbb] __binary_concat__, { | a ='bin => 1 | 2 } }", "1"),
+    ("a list of 400 fresh binaries threaded through a tail-recursive loop, then read back", "#{ build = #['int, '%list<'bin>] { | =[0, acc] => acc | =[n, acc] => [[n, 1] __integer_subtract__, Cons[[0x, n, 2] __binary_append__, acc]] ^ }, sum = #['%list<'bin>, 'int] { | =[Nil, total] => total | =[Cons[head, rest], total] => [rest, [total, [head, 0, 0, 16] __binary_get__] __integer_add__] ^ }, xs = [400, %list.new] build, [xs, 0] sum }", "80200"),
     ("reuse after drop: loop of allocations then a fresh value", "#{ f = #'int { | =0 => [0xde, 0xad] __binary_concat__ | =n => { [0x01, 0x02] __binary_concat__ =scratch, [n, 1] __integer_subtract__ ^ } }, keep = [0xbe, 0xef] __binary_concat__, [keep, 300 f, keep] }", "[0xbeef, 0xdead, 0xbeef]"),
 ]
 
